@@ -52,34 +52,35 @@ Section B.
 Variable L : Z.
 
 (* ---------- environment steps ---------- *)
+Ltac triv := (split; [assumption|auto]).
 Lemma env_step_cov P st o :
-  nf_eop o = true -> nwb_eop o = true ->
-  (forall l, In l (lsts st) -> l_reg l = true \/ l_to l <> None) -> WBl st ->
-  (forall t l, ~ P t -> nth_error (lsts st) t = Some l -> CovG true l) ->
+  nf_eop o = true -> nwb_eop o = true -> WBl st ->
   WBl (env_step L st o) /\
-  (forall t l, ~ P t -> nth_error (lsts (env_step L st o)) t = Some l -> CovG true l).
+  ((forall l, In l (lsts st) -> l_reg l = true \/ l_to l <> None) ->
+   (forall t l, ~ P t -> nth_error (lsts st) t = Some l -> CovG true l) ->
+   (forall t l, ~ P t -> nth_error (lsts (env_step L st o)) t = Some l -> CovG true l)).
 Proof.
-  intros Hnf Hwb Hreg HW HC. destruct o; try discriminate; cbn [env_step].
-  - destruct (nth_error (lsts st) tok) as [l0|] eqn:E0; [|split; assumption].
-    destruct (l_uds l0 && negb (l_linked l0)); [split; assumption|]. cbn [lsts upd_lst set_lsts]. split.
+  intros Hnf Hwb HW. destruct o; try discriminate; cbn [env_step].
+  - destruct (nth_error (lsts st) tok) as [l0|] eqn:E0; [|triv].
+    destruct (l_uds l0 && negb (l_linked l0)); [triv|]. cbn [lsts upd_lst set_lsts]. split.
     + apply Forall_replace_nth; [exact HW|]. pose proof (Forall_nth_error _ _ _ _ HW E0) as H0. exact H0.
-    + intros t l HP. rewrite nth_error_replace_nth. destruct (Nat.eqb_spec tok t) as [<-|Hne]; [|now apply HC].
+    + intros Hreg HC t l HP. rewrite nth_error_replace_nth. destruct (Nat.eqb_spec tok t) as [<-|Hne]; [|now apply HC].
       destruct (Nat.ltb tok (length (lsts st))); [|discriminate]. intros E; injection E as <-.
       destruct (Hreg l0 (nth_error_In _ _ E0)) as [Hr|Ht].
       * right; right; left. cbn. rewrite Hr, orb_true_r. auto.
       * right; right; right. exact Ht.
-  - destruct (nth_error (ws st) g) as [w|]; [|split; assumption]. destruct (w_open w); [|split; assumption].
-    destruct (w_queue w); split; assumption.
-  - destruct (nth_error (ws st) g) as [w|]; [|split; assumption].
-    destruct (remove_conn c (w_picked w)) as [[x p]|]; [|split; assumption].
-    unfold guard_drop. destruct (Z.eqb _ _); split; assumption.
-  - destruct (nth_error (ws st) g) as [w|]; [|split; assumption]. destruct (w_open w); [|split; assumption].
-    destruct (w_queue w); [split; assumption|]. unfold guard_drop. destruct (Z.eqb _ _); split; assumption.
-  - split; assumption.
-  - destruct (nth_error (lsts st) tok) as [l0|] eqn:E0; [|split; assumption]. cbn [lsts upd_lst set_lsts]. split.
+  - destruct (nth_error (ws st) g) as [w|]; [|triv]. destruct (w_open w); [|triv].
+    destruct (w_queue w); triv.
+  - destruct (nth_error (ws st) g) as [w|]; [|triv].
+    destruct (remove_conn c (w_picked w)) as [[x p]|]; [|triv].
+    unfold guard_drop. destruct (Z.eqb _ _); triv.
+  - destruct (nth_error (ws st) g) as [w|]; [|triv]. destruct (w_open w); [|triv].
+    destruct (w_queue w); [triv|]. unfold guard_drop. destruct (Z.eqb _ _); triv.
+  - triv.
+  - destruct (nth_error (lsts st) tok) as [l0|] eqn:E0; [|triv]. cbn [lsts upd_lst set_lsts]. split.
     + apply Forall_replace_nth; [exact HW|]. pose proof (Forall_nth_error _ _ _ _ HW E0) as H0.
       unfold NoWB in *. cbn. intros Hin. apply in_app_or in Hin as [Hin|[Hk|[]]]; [auto|subst k; discriminate Hwb].
-    + intros t l HP. rewrite nth_error_replace_nth. destruct (Nat.eqb_spec tok t) as [<-|Hne]; [|now apply HC].
+    + intros Hreg HC t l HP. rewrite nth_error_replace_nth. destruct (Nat.eqb_spec tok t) as [<-|Hne]; [|now apply HC].
       destruct (Nat.ltb tok (length (lsts st))); [|discriminate]. intros E; injection E as <-.
       right; left. cbn. intros H. now apply app_eq_nil in H as [_ H].
 Qed.
@@ -93,10 +94,10 @@ Lemma env_steps_cov P os : forall st,
 Proof.
   induction os as [|o os IH]; intros st Hnf Hwb HR Hs Hp HW HC; cbn [env_steps fold_left]; [split; assumption|].
   cbn [forallb] in Hnf, Hwb. apply andb_true_iff in Hnf as [Ho Hos]. apply andb_true_iff in Hwb as [Wo Wos].
-  destruct (env_step_cov P st o Ho Wo) as [HW1 HC1]; auto.
-  { intros l Hin. eapply RInv_reg_or_to; eauto. }
+  destruct (env_step_cov P st o Ho Wo HW) as [HW1 HC1].
   destruct (env_step_r L st o HR) as [HR1 (F1 & F2 & _)].
-  apply IH; auto; congruence.
+  apply IH; [exact Hos|exact Wos|exact HR1|congruence|congruence|exact HW1|]. apply HC1; [|exact HC].
+  intros l Hin. exact (RInv_reg_or_to st l HR Hs Hp Hin).
 Qed.
 
 (* the same for both flavours of CovG: with e = false nothing runs at the yield points *)
@@ -359,6 +360,191 @@ Proof.
     split; [destruct (paused st0); [exact HWB|apply WBl_deregister_all; exact HWB]|].
     split; [exact Hys|]. split; [exact Hwb|]. split; [exact Hey|].
     split; [intros Hs; discriminate Hs|]. now left.
+Qed.
+
+(* ---------- the poll: which listeners are reported ---------- *)
+Lemma ready_toks_in ls : forall k t l,
+  nth_error ls t = Some l -> l_reg l = true -> l_edge l = true -> l_backlog l <> [] -> In (k + t) (ready_toks k ls).
+Proof.
+  induction ls as [|x ls IH]; intros k t l Hl Hr He Hb; [destruct t; discriminate|]. cbn [ready_toks].
+  destruct t as [|t]; cbn in Hl.
+  - injection Hl as ->. rewrite Hr, He. destruct (l_backlog l); [congruence|]. cbn. left. lia.
+  - apply in_or_app. right. replace (k + S t) with (S k + t) by lia. eapply IH; eauto.
+Qed.
+
+Lemma ready_toks_unreg ls : Forall (fun l => l_reg l = false) ls -> forall k, ready_toks k ls = [].
+Proof.
+  induction 1 as [|l ls Hl _ IH]; intros k; cbn [ready_toks]; [reflexivity|]. rewrite Hl, IH. reflexivity.
+Qed.
+
+Lemma RInv_paused_unreg st : RInv st -> paused st = true -> Forall (fun l => l_reg l = false) (lsts st).
+Proof.
+  intros (_ & _ & H3) Hp. eapply Forall_impl; [|exact H3]. intros l (_ & _ & C & _). now apply C.
+Qed.
+
+Definition turn_start (st : state) : state :=
+  emit (set_wq (set_lsts st (clear_edges (lsts st))) (wq st) false) (EvReady (ready_toks 0 (lsts st)) (wpend st)).
+
+(* one Turn up to (not including) process_timeout; e = false is the turn without yields of the recovery theorems *)
+Lemma turn_core nl e st ys :
+  Inv L nl None st -> RInv st -> WBl st -> BInv true st -> WQ st ->
+  nf_ys ys = true -> nwb_ys ys = true -> (e = false -> ys = []) -> stopped st = false ->
+  exists st1 ys1 st2 ys2,
+    accept_toks L (turn_start st) (ready_toks 0 (lsts st)) ys = (st1, ys1) /\
+    (if wpend st then handle_waker L (handle_waker_fuel st1 ys1) st1 ys1 else (st1, ys1)) = (st2, ys2) /\
+    Inv L nl None st2 /\ RInv st2 /\ WBl st2 /\ BInv e st2 /\ WQ st2 /\ (e = false -> ys1 = [] /\ ys2 = []) /\
+    stopped st1 = false /\ paused st1 = paused st /\ Fr1 (turn_start st) st1.
+Proof.
+  intros HI HR HWB HB HQ Hys Hwb Hey Hst. set (st0 := turn_start st). set (toks := ready_toks 0 (lsts st)).
+  assert (HI0 : Inv L nl None st0).
+  { unfold Inv, st0, turn_start. cbn. eapply InvC_change_ls; [|exact HI]. unfold clear_edges. rewrite map_length.
+    exact (Inv_lsts_len _ _ _ _ HI). }
+  assert (HR0 : RInv st0) by (apply RInv_turn_start; exact HR).
+  assert (HWB0 : WBl st0).
+  { unfold WBl, st0, turn_start, clear_edges. cbn. apply Forall_map. eapply Forall_impl; [|exact HWB]. intros l Hl. exact Hl. }
+  assert (HT : Forall (fun t => t < nl) toks).
+  { apply Forall_forall. intros t Ht. apply ready_toks_bound in Ht. rewrite (Inv_lsts_len _ _ _ _ HI) in Ht. lia. }
+  (* the accept calls for the reported listeners *)
+  assert (A : exists st1 ys1, accept_toks L st0 toks ys = (st1, ys1) /\ Post L nl st0 ys st1 ys1 /\ RInv st1 /\ WBl st1 /\
+              nwb_ys ys1 = true /\ (e = false -> ys1 = []) /\ BInv e st1 /\ Fr1 st0 st1).
+  { destruct (paused st) eqn:Hpa.
+    - unfold toks. rewrite (ready_toks_unreg _ (RInv_paused_unreg _ HR Hpa)). cbn [accept_toks].
+      exists st0, ys. split; [reflexivity|]. split; [now apply Post_refl|]. split; [exact HR0|]. split; [exact HWB0|].
+      split; [exact Hwb|]. split; [exact Hey|]. split; [|apply Fr1_refl]. intros _ Hp. cbn in Hp. congruence.
+    - destruct (accept_toks_b nl e (fun _ => False) toks st0 ys HI0 HR0 HWB0 Hys Hwb Hey Hst Hpa HT)
+        as (st1 & ys1 & Hs1 & HP1 & HR1 & HWB1 & Hwb1 & Hey1 & C1).
+      { intros Ha t l _ Hnin. unfold st0, turn_start, clear_edges. cbn [lsts emit set_wq set_lsts].
+        rewrite nth_error_map. destruct (nth_error (lsts st) t) as [l0|] eqn:E0; [|discriminate].
+        cbn. intros E; injection E as <-.
+        destruct (HB Hst Hpa Ha t l0 (fun x => x) E0) as [H|[H|[(_ & Hr & Hed)|H]]].
+        + left. exact H.
+        + right; left. exact H.
+        + destruct (l_backlog l0) eqn:Eb; [left; reflexivity|]. exfalso. apply Hnin.
+          apply (ready_toks_in (lsts st) 0 t l0 E0 Hr Hed). congruence.
+        + right; right; right. exact H. }
+      exists st1, ys1. split; [exact Hs1|]. split; [exact HP1|]. split; [exact HR1|]. split; [exact HWB1|].
+      split; [exact Hwb1|]. split; [exact Hey1|]. split; [|exact (proj2 (accept_toks_r L _ _ _ _ _ HR0 Hs1))].
+      intros _ _ Ha t l _ Hl. exact (C1 Ha t l (fun x => x) Hl). }
+  destruct A as (st1 & ys1 & Hs1 & HP1 & HR1 & HWB1 & Hwb1 & Hey1 & HB1 & F1).
+  pose proof HP1 as (HI1 & Hys1 & _ & Hp1 & Hst1 & _).
+  assert (Hst1' : stopped st1 = false) by (rewrite Hst1; exact Hst).
+  destruct (wpend st) eqn:Hwk.
+  - destruct (handle_waker_b nl e (handle_waker_fuel st1 ys1) st1 ys1 HI1 HR1 HWB1 Hys1 Hwb1 Hey1 Hst1' HB1)
+      as (st2 & ys2 & Hs2 & HI2 & HR2 & HWB2 & Hys2 & Hwb2 & Hey2 & HB2 & Hend); [unfold handle_waker_fuel; lia|].
+    exists st1, ys1, st2, ys2. split; [exact Hs1|]. split; [exact Hs2|]. split; [exact HI2|]. split; [exact HR2|].
+    split; [exact HWB2|]. split; [exact HB2|]. split.
+    + intros Hs Hne. destruct Hend; congruence.
+    + split; [auto|]. split; [exact Hst1'|]. split; [exact Hp1|exact F1].
+  - exists st1, ys1, st1, ys1. split; [exact Hs1|]. split; [reflexivity|]. split; [exact HI1|]. split; [exact HR1|].
+    split; [exact HWB1|]. split; [exact HB1|]. split.
+    + intros _ Hne. destruct F1 as (_ & _ & _ & (ext & Hext & Hw) & _).
+      assert (Hq0 : wq st = []).
+      { destruct (wq st) eqn:Eq; [reflexivity|]. exfalso. assert (wpend st = true) by (apply HQ; [exact Hst|congruence]). congruence. }
+      change (wq st0) with (wq st) in Hext. rewrite Hq0 in Hext. cbn in Hext.
+      destruct Hw as [[-> _]|Hw]; [congruence|exact Hw].
+    + split; [auto|]. split; [exact Hst1'|]. split; [exact Hp1|exact F1].
+Qed.
+
+(* ---------- Accept::process_timeout ---------- *)
+Lemma process_timeout_wbl st : WBl st -> WBl (process_timeout st).
+Proof.
+  intros H. rewrite process_timeout_eq. destruct (ptimeout st); [|exact H]. unfold WBl. cbn.
+  apply Forall_map. eapply Forall_impl; [|exact H]. intros l Hl. unfold pto_l.
+  destruct (l_to l); [|exact Hl]. destruct (N.ltb _ _); [exact Hl|]. destruct (paused st); [exact Hl|].
+  unfold register. destruct (l_reg _); exact Hl.
+Qed.
+
+Lemma process_timeout_fields st :
+  av (process_timeout st) = av st /\ stopped (process_timeout st) = stopped st /\ paused (process_timeout st) = paused st /\
+  wq (process_timeout st) = wq st /\ wpend (process_timeout st) = wpend st /\ now (process_timeout st) = now st /\
+  err (process_timeout st) = err st.
+Proof. rewrite process_timeout_eq. destruct (ptimeout st); repeat split. Qed.
+
+Lemma process_timeout_cov st : RInv st -> BInv true st -> BInv true (process_timeout st).
+Proof.
+  intros (_ & _ & H3) HB. destruct (process_timeout_fields st) as (F1 & F2 & F3 & _).
+  intros Hs Hp Ha t l _. rewrite F1 in Ha. rewrite F2 in Hs. rewrite F3 in Hp.
+  rewrite process_timeout_eq. destruct (ptimeout st); [|now apply HB]. cbn [lsts set_ptimeout set_lsts].
+  rewrite nth_error_map. destruct (nth_error (lsts st) t) as [l0|] eqn:E0; [|discriminate]. cbn. intros E; injection E as <-.
+  pose proof (HB Hs Hp Ha t l0 (fun x => x) E0) as HC. unfold pto_l.
+  destruct (l_to l0) as [inst|] eqn:Et; [|exact HC]. destruct (N.ltb _ _); [exact HC|]. rewrite Hp.
+  pose proof (Forall_nth_error _ _ _ _ H3 E0) as (_ & B & _). destruct (B inst Et) as (Br & _).
+  unfold register. cbn [l_reg set_l_to]. rewrite Br.
+  destruct (l_backlog l0) eqn:Eb; [left; cbn; exact Eb|]. right; right; left. cbn. rewrite Eb. auto.
+Qed.
+
+(* ---------- every operation ---------- *)
+Definition FInv (nl : nat) (st : state) : Prop :=
+  Inv L nl None st /\ RInv st /\ WBl st /\ BInv true st /\ WQ st.
+
+Lemma live_true st : live st = true -> stopped st = false /\ err st = None.
+Proof. unfold live. destruct (stopped st); [discriminate|]. destruct (err st); [discriminate|auto]. Qed.
+
+Lemma WQ_rel st st' : WQ st -> stopped st' = stopped st -> WQrel st st' -> WQ st'.
+Proof.
+  intros HQ Hs (ext & Hext & Hw) Hs' Hne. rewrite Hs in Hs'. destruct Hw as [[-> Hw]|Hw]; [|exact Hw].
+  rewrite app_nil_r in Hext. rewrite Hw. apply HQ; [exact Hs'|congruence].
+Qed.
+
+Lemma step_b nl st o :
+  nf_op o = true -> tok_ok nl o = true -> nwb_op o = true -> FInv nl st -> FInv nl (step L st o).
+Proof.
+  intros Hnf Htok Hwb (HI & HR & HWB & HB & HQ).
+  destruct (step_inv L nl st o Hnf Htok HI) as [HI' _]. pose proof (step_r L st o HR) as HR'.
+  split; [exact HI'|]. split; [exact HR'|]. clear HI' HR'.
+  destruct o as [eo|tok ys|ys| |ys|ms]; cbn [step nf_op tok_ok nwb_op] in *.
+  - (* environment *)
+    destruct (env_step_cov (fun _ => False) st eo Hnf Hwb HWB) as [HW1 HC1].
+    destruct (env_step_frame L st eo Hnf) as (_ & _ & Fa & _ & _ & Fp & Fs & _).
+    split; [exact HW1|]. split.
+    + intros Hs Hp Ha. rewrite Fs in Hs. rewrite Fp in Hp. rewrite Fa in Ha. apply HC1.
+      * intros l Hin. exact (RInv_reg_or_to st l HR Hs Hp Hin).
+      * exact (HB Hs Hp Ha).
+    + destruct (env_step_r L st eo HR) as [_ (_ & G2 & _ & G4 & _)]. eapply WQ_rel; eauto.
+  - (* accept(tok) *)
+    destruct (live st) eqn:Hlive; [|repeat split; assumption]. destruct (live_true _ Hlive) as [Hst He].
+    apply Nat.ltb_lt in Htok.
+    destruct (paused st) eqn:Hpa.
+    { unfold accept. rewrite Hpa. cbn [fst]. repeat split; assumption. }
+    destruct (available (av st)) eqn:Hav.
+    2:{ rewrite accept_idle by assumption. cbn [fst]. repeat split; assumption. }
+    destruct (accept_b nl true (fun _ => False) st tok ys HI HR HWB Hnf Hwb ltac:(discriminate) Hst Hpa Htok)
+      as (st' & ys' & Hs & HP & HR' & HWB' & _ & _ & C1 & C2).
+    { intros t l _ _ Hl. exact (HB Hst Hpa Hav t l (fun x => x) Hl). }
+    rewrite Hs. cbn [fst]. split; [exact HWB'|]. split.
+    + intros _ _ Ha t l _ Hl. destruct (Nat.eq_dec t tok) as [->|Hne]; [exact (C2 Ha l Hl)|exact (C1 t l Hne (fun x => x) Hl)].
+    + destruct (accept_r L _ _ _ _ _ HR Hs) as [_ (_ & G2 & _ & G4 & _)]. eapply WQ_rel; eauto.
+  - (* handle_waker *)
+    destruct (live st) eqn:Hlive; [|repeat split; assumption]. destruct (live_true _ Hlive) as [Hst He].
+    destruct (handle_waker_b nl true (handle_waker_fuel st ys) st ys HI HR HWB Hnf Hwb ltac:(discriminate) Hst HB)
+      as (st' & ys' & Hs & _ & _ & HWB' & _ & _ & _ & HB' & Hend); [unfold handle_waker_fuel; lia|].
+    rewrite Hs. cbn [fst]. split; [exact HWB'|]. split; [exact HB'|]. intros Hs' Hne. destruct Hend; congruence.
+  - (* process_timeout *)
+    destruct (live st); [|repeat split; assumption].
+    split; [now apply process_timeout_wbl|]. split; [now apply process_timeout_cov|].
+    destruct (process_timeout_fields st) as (_ & F2 & _ & F4 & F5 & _). unfold WQ. rewrite F2, F4, F5. exact HQ.
+  - (* Turn *)
+    destruct (live st) eqn:Hlive; [|repeat split; assumption]. destruct (live_true _ Hlive) as [Hst He].
+    destruct (turn_core nl true st ys HI HR HWB HB HQ Hnf Hwb ltac:(discriminate) Hst)
+      as (st1 & ys1 & st2 & ys2 & Hs1 & Hs2 & HI2 & HR2 & HWB2 & HB2 & HQ2 & _).
+    fold (turn_start st). rewrite Hs1.
+    assert (Hfin : forall s, Inv L nl None s -> RInv s -> WBl s -> BInv true s -> WQ s ->
+                     let s' := if live s then process_timeout s else s in WBl s' /\ BInv true s' /\ WQ s').
+    { intros s A1 A2 A3 A4 A5. destruct (live s); cbn; [|repeat split; assumption].
+      split; [now apply process_timeout_wbl|]. split; [now apply process_timeout_cov|].
+      destruct (process_timeout_fields s) as (_ & F2 & _ & F4 & F5 & _). unfold WQ. rewrite F2, F4, F5. exact A5. }
+    destruct (wpend st); [rewrite Hs2|injection Hs2 as <- <-]; now apply Hfin.
+  - (* Advance *)
+    repeat split; assumption.
+Qed.
+
+Lemma run_b nl os : forall st,
+  forallb nf_op os = true -> forallb (tok_ok nl) os = true -> forallb nwb_op os = true ->
+  FInv nl st -> FInv nl (run L st os).
+Proof.
+  induction os as [|o os IH]; intros st Hnf Htok Hwb HF; cbn [run fold_left]; [exact HF|].
+  cbn [forallb] in Hnf, Htok, Hwb. apply andb_true_iff in Hnf as [A1 A2]. apply andb_true_iff in Htok as [B1 B2].
+  apply andb_true_iff in Hwb as [C1 C2]. apply IH; auto. now apply step_b.
 Qed.
 
 End B.
